@@ -25,6 +25,14 @@ case "$ID" in
     export VW_FRESH_EXE="$BUILD/vwfresh-$ID" ;;
 esac
 case "$ID" in
+  C07|C08|C09)
+    # the same worker for GOARCH=386 (32-bit int, portable kernels); runs on this machine
+    if ! GOARCH=386 go build -tags verif -o "$BUILD/vw-$ID-386" ./cmd/vw >>"$LOG" 2>&1; then
+      echo "BUILD-FAILED (386) property=$ID (see $LOG)"; tail -20 "$LOG"; exit 3
+    fi
+    export VW_386_EXE="$BUILD/vw-$ID-386" ;;
+esac
+case "$ID" in
   C09|C11|C12)
     if ! go build -race -tags verif -o "$BUILD/vw-$ID-race" ./cmd/vw >>"$LOG" 2>&1; then
       echo "BUILD-FAILED (race) property=$ID (see $LOG)"; tail -20 "$LOG"; exit 3
